@@ -42,7 +42,7 @@ pub fn check(tier: Tier) -> Check {
         also_rel: false,
         property: "C02",
         level: "exploration",
-        rule: "every server packet type x subsets of the properties legal for it (CONNACK: quick = all subsets of size <=4 (<=3 in every order) and >=14 in identity/reverse/rotated order, thorough = all 2^17 subsets x 3 orders; others: all subsets) x repeated user properties with duplicate keys (adjacent and separated by another key) x every legal reason code x short forms (PUBACK family 2/3/>=4, AUTH 0, DISCONNECT 0/1) x packet identifiers {1,127,128,255,256,16383,16384,65535} and subscription identifiers up to 268435455 (counters preset by the hook) x payload sizes crossing the 512/1024-byte buffer steps x boundary string lengths x a sweep in which, for every packet type, the property length takes every value in 118..=138 (thorough: also 16374..=16394) while the part after the properties (reason-code list of 1, 3, 118..=131 entries, payload, nothing) moves the remaining length across its own 127/128 (16383/16384) boundary independently; read back through ConnectRsp/ConnectError/AuthRsp/SubscribeRsp/UnsubscribeRsp/PublishData/Puback-Pubrec-PubcompError/Disconnected accessors; distinct_nontrivial = distinct packets whose values were read back".into(),
+        rule: "every server packet type x subsets of the properties legal for it (CONNACK: quick = all subsets of size <=4 (<=3 in every order) and >=14 in identity/reverse/rotated order, thorough = all 2^17 subsets x 3 orders; others: all subsets) x repeated user properties with duplicate keys (adjacent and separated by another key) x every legal reason code x short forms (PUBACK family 2/3/>=4, AUTH 0, DISCONNECT 0/1) x packet identifiers {1,127,128,255,256,16383,16384,65535} and subscription identifiers up to 268435455 (counters preset by the hook) x payload sizes crossing the 512/1024-byte buffer steps x boundary string lengths x a sweep in which, for every packet type, the property length takes every value in 118..=138 (thorough: also 16374..=16394) while the part after the properties (reason-code list of 1, 3, 118..=131 entries, payload, nothing) moves the remaining length across its own 127/128 (16383/16384) boundary independently; read back through ConnectRsp/ConnectError/AuthRsp/SubscribeRsp/UnsubscribeRsp/PublishData/Puback-Pubrec-PubcompError/Disconnected accessors; distinct_nontrivial = distinct packets whose values were read back; strings whose every byte offset lies inside a 2-/3-/4-byte character for some member, through every error and response type (C02/utf8-align); every returned error is printed (Display, Debug, source chain) and UserProperties probed for keys that were not sent; inbound packets of exactly the client's own Maximum Packet Size (C02/own-limit); CONNACK / value parts also on the second connection of a Context whose first one ended inside an inbound packet (params.prelude)".into(),
         assumptions: vec![
             "only property sets and reason codes the standard allows for the packet type; minimal variable byte integers".into(),
             "a successful CONNACK announcing Subscription Identifiers unavailable is excluded (documented assertion)".into(),
